@@ -61,6 +61,42 @@ def run_one(engine, base_seed, tier, index):
     return out
 
 
+def run_family(engine, base_seed, tier, index):
+    """Run #index, plus -- for the runs the engine selects -- a complete sweep of fault positions:
+    the same workload re-executed once per seam event of the chosen operations (section 3.4 of DESIGN.md)."""
+    first = run_one(engine, base_seed, tier, index)
+    outs = [first]
+    every = getattr(engine, "SWEEP_EVERY", {}).get(tier)
+    if not every or index % every != every // 2 or "harness_error" in first or first.get("violations"):
+        return outs
+    seed = first["seed"]
+    try:
+        rng = core.make_rng(seed)
+        case = engine.generate(rng, tier, index)
+        case["seed"] = seed
+        case["property"] = engine.PROPERTY
+        case["format"] = FORMAT
+        case["faults"] = []
+        plans = engine.sweep_plans(case)
+    except Exception:
+        outs.append({"index": index, "sub": 1, "seed": seed, "harness_error": traceback.format_exc()})
+        return outs
+    for k, plan in enumerate(plans):
+        out = {"index": index, "sub": k + 1, "seed": seed, "sweep": True}
+        try:
+            sub = copy.deepcopy(case)
+            sub["faults"] = plan
+            res = engine.execute(sub)
+            out.update(res.summary())
+            out["faulted"] = True
+            if res.violations:
+                out["case"] = sub
+        except Exception:
+            out["harness_error"] = traceback.format_exc()
+        outs.append(out)
+    return outs
+
+
 _ENGINE = None
 
 
@@ -74,7 +110,7 @@ def _worker_chunk(args):
             continue
         faulthandler.dump_traceback_later(_ENGINE.RUN_WALL_CAP_S, exit=True)
         try:
-            results.append(run_one(_ENGINE, base_seed, tier, i))
+            results.extend(run_family(_ENGINE, base_seed, tier, i))
         finally:
             faulthandler.cancel_dump_traceback_later()
     return results
@@ -271,7 +307,7 @@ def run_check(engine_cls, tier, base_seed, jobs=None, runs=None, budget_s=None, 
     if jobs == 1:
         for t in tasks:
             for r in _worker_chunk(t):
-                results[r["index"]] = r
+                results[(r["index"], r.get("sub", 0))] = r
     else:
         ctx = multiprocessing.get_context("fork")
         with ProcessPoolExecutor(max_workers=jobs, mp_context=ctx) as pool:
@@ -280,7 +316,7 @@ def run_check(engine_cls, tier, base_seed, jobs=None, runs=None, budget_s=None, 
                 for fut in as_completed(futs, timeout=float(tcfg["budget_s"]) + 120.0):
                     try:
                         for r in fut.result():
-                            results[r["index"]] = r
+                            results[(r["index"], r.get("sub", 0))] = r
                     except Exception as e:  # a worker died (watchdog) or raised
                         dead_workers += 1
                         harness_errors.append("worker failure on indices %s: %r" % (futs[fut][2][:3], e))
@@ -305,6 +341,8 @@ def run_check(engine_cls, tier, base_seed, jobs=None, runs=None, budget_s=None, 
     sigs = set()
     sigs_all = set()
     digests = core.hashlib.sha256()
+    sweep_families = len({r["index"] for r in done if r.get("sweep")})
+    sweep_subcases = sum(1 for r in done if r.get("sweep"))
     for r in done:
         for key in ("probes", "faults_fired", "outcomes", "seam_counts"):
             for k, v in r[key].items():
@@ -359,7 +397,7 @@ def run_check(engine_cls, tier, base_seed, jobs=None, runs=None, budget_s=None, 
             continue
         rec = {
             "format": FORMAT, "property": engine.PROPERTY, "engine": engine.ENGINE_NAME, "seed": r["seed"],
-            "base_seed": base_seed, "tier": tier, "run_index": r["index"], "repo_rev": rev,
+            "base_seed": base_seed, "tier": tier, "run_index": r["index"], "sweep_subcase": r.get("sub", 0), "repo_rev": rev,
             "case": small, "violation": viol, "event_digest": res.digest,
             "n_runs_with_this_class": len(rs),
         }
@@ -400,6 +438,8 @@ def run_check(engine_cls, tier, base_seed, jobs=None, runs=None, budget_s=None, 
             "oracle_comparisons": agg["checks"],
             "faults_planned": agg["faults_planned"],
             "faults_fired": agg["faults_fired"],
+            "fault_position_sweeps": {"families": sweep_families, "subcases": sweep_subcases,
+                                      "meaning": "for each family the same fault-free workload was re-executed once per seam event of its operations (complete fault-position coverage for that workload, fault kind chosen round-robin)"},
             "fault_free_runs": agg["fault_free_runs"],
             "faulted_runs": agg["faulted_runs"],
             "probes": agg["probes"],
